@@ -1,13 +1,13 @@
 CONSTANTS
   Nodes = {1,2}
   Virt = {}
-  MaxUpd = 2
+  MaxUpd = 3
   MaxFail = 0
-  FixMerge = FALSE
+  FixMerge = TRUE
   ArmAt = "commit"
   Upfront = TRUE
   SplitStart = TRUE
-  Cap <- CapAll
+  Cap <- CapAsym
 SPECIFICATION Spec
 INVARIANTS TypeOK NoInflightBroadcast OnlyCommitted
 PROPERTIES PSafety Delivered Converged
